@@ -66,10 +66,15 @@ FILES = [(p, True) for p in (
     # directories whose names differ from a root's only in letter case (different directories on this file system)
     'work/Proj/canary.lua', 'work/PROJ/ok.lua', 'work/Proj/lib/ok.lua', 'abs/Libs/mod.lua', 'abs/LIBS/ok.lua',
     HP + '/Carts/canary.lua', HP + '/CARTS/ok.lua', HP + '/Carts/game/ok.lua', HP + '/cartsx/canary.lua',
+    # what a project directory named `qu?ry` turns into when its `?` is (wrongly) taken for the pattern's placeholder
+    'work/quokry/ok', 'work/quokry/ok.lua', 'work/quokry/lib/ok.lua', 'work/qulibry/lib', 'work/qulibry/lib.lua',
+    'work/qucanaryry/canary.lua', 'work/qucanaryry/canary', 'work/quinitry/init.lua', 'work/qusubry/sub.lua',
+    'work/qulib/okry/lib/ok.lua', 'work/qulib/okry/lib/ok',
 )] + [(p, False) for p in (
     'work/proj/ok.lua', 'work/proj/ok.p8', 'work/proj/init.lua', 'work/proj/lib/ok.lua', 'work/proj/lib/ok.p8',
     'work/proj/lib/ok.p8.png', 'work/proj/lib/init.lua', 'work/proj/lib/lib/ok.lua', 'work/proj/sub/ok.lua',
     'work/proj/sub/inc.lua',
+    'work/qu?ry/ok.lua', 'work/qu?ry/lib/ok.lua', 'work/qu?ry/init.lua',
     'abs/libs/mod.lua', 'abs/libs/ok.lua', 'abs/libs/init.lua', 'abs/libs/pkg/init.lua', 'abs/libs/lib/ok.lua',
     'abs/libs/lib/init.lua', 'abs/libs/ok/init.lua',
     HP + '/carts/ok.lua', HP + '/carts/shared.lua', HP + '/carts/canary.lua', HP + '/carts/canary.p8',
@@ -93,9 +98,13 @@ REQ_SETTINGS = {
     'abs_cli': (ABS_LP, 'cli', 'mod', 'abs/libs/mod.lua'),
     'rel_env': ('lib/?.lua;?', 'env', 'ok', 'work/proj/lib/ok.lua'),
     'abs_env': (ABS_LP, 'env', 'mod', 'abs/libs/mod.lua'),
+    # the project directory itself has a `?` in its name (legal on this file system)
+    'qdir': (None, None, 'lib/ok', 'work/qu?ry/lib/ok.lua'),
+    'qdir_rel': ('lib/?.lua;?', 'cli', 'ok', 'work/qu?ry/lib/ok.lua'),
 }
-REQ_ORDER = ('default', 'rel_cli', 'relpkg_cli', 'abs_cli', 'rel_env', 'abs_env')
-MUTABLE = ['work/proj/main.p8', HP + '/carts/game/main.p8', HP + '/cartsX/main.p8', 'work/proj/main.lua',
+MAIN_LUA = {'qdir': 'work/qu?ry/main.lua', 'qdir_rel': 'work/qu?ry/main.lua'}
+REQ_ORDER = ('default', 'rel_cli', 'relpkg_cli', 'abs_cli', 'rel_env', 'abs_env', 'qdir', 'qdir_rel')
+MUTABLE = ['work/proj/main.p8', HP + '/carts/game/main.p8', HP + '/cartsX/main.p8', 'work/proj/main.lua', 'work/qu?ry/main.lua',
            'build/out.p8']
 P8_HEAD = b'pico-8 cartridge // http://www.pico-8.com\nversion 8\n__lua__\n'
 
@@ -226,7 +235,7 @@ def patterns(lay, setting):
 def req_geometry(lay, case):
     """(requiring file, its directory, allowed roots) for the require("S") under test."""
     _lp, _via, _hop, hopfile = REQ_SETTINGS[case['setting']]
-    reqfile = lay.p(hopfile) if case['nested'] else lay.p('work/proj/main.lua')
+    reqfile = lay.p(hopfile) if case['nested'] else lay.p(MAIN_LUA.get(case['setting'], 'work/proj/main.lua'))
     reqdir = os.path.dirname(reqfile)
     roots = [reqdir]
     for pat in patterns(lay, case['setting']):
@@ -372,7 +381,7 @@ def _run_require(lay, case, S):
     from pico8 import tool
     lp, via, hop, hopfile = REQ_SETTINGS[case['setting']]
     reqfile, _reqdir, roots = req_geometry(lay, case)
-    main_lua = lay.p('work/proj/main.lua')
+    main_lua = lay.p(MAIN_LUA.get(case['setting'], 'work/proj/main.lua'))
     out = lay.p('build/out.p8')
     form = case.get('form', 'paren')
     lit = S.encode('utf-8').replace(b'\\', b'\\\\')       # the Lua literal denoting S
@@ -587,6 +596,11 @@ def require_cases(lay, maxseg):
         for nested in (False, True):
             probe = {'mode': 'require', 'setting': setting, 'nested': nested, 'S': ''}
             _f, reqdir, roots = req_geometry(lay, probe)
+            if setting.startswith('qdir'):
+                # (a reduced string space: this setting is about the directory's name, not about the strings)
+                for S in enum_strings(2):
+                    yield dict(probe, S=S)
+                continue
             for S in enum_strings(maxseg):
                 yield dict(probe, S=S)
             for S in explicit_strings(lay, roots, ['.lua', '/init.lua']):
